@@ -31,6 +31,15 @@ type Sparse struct {
 	In SparseIn  `json:"in"`
 	P  *SparseIn `json:"p,omitempty"`
 	L  []string  `json:",omitempty"`
+	// two unnamed struct types holding the same field names at different positions
+	X struct {
+		A int64
+		B int64
+	}
+	Y struct {
+		B int64
+		A int64
+	}
 }
 
 type sparseRow struct {
@@ -119,6 +128,7 @@ func caseC02Sparse(t TB, prog *Program) {
 	var batch []sod.Object
 	for i, r := range rows {
 		o := &Sparse{K: r.K, A: r.A, S: r.S, F: r.F, In: SparseIn{N: r.InN, S: r.InS}}
+		o.X.A, o.X.B, o.Y.A, o.Y.B = r.A, r.K, r.K+10, r.A+10 // (derived: the rows stay the model)
 		if r.HasP {
 			o.P = &SparseIn{N: r.PN, S: r.PS}
 		}
@@ -165,6 +175,10 @@ func caseC02Sparse(t TB, prog *Program) {
 				probe{"In.N", "=", x, func(r sparseRow) bool { return r.InN == x }},
 				probe{"P.N", "=", x, func(r sparseRow) bool { return r.PN == x }}, // through nil: zero value
 				probe{"P.N", "!=", x, func(r sparseRow) bool { return r.PN != x }},
+				probe{"X.A", "=", x, func(r sparseRow) bool { return r.A == x }},
+				probe{"X.B", "=", x, func(r sparseRow) bool { return r.K == x }},
+				probe{"Y.A", "=", x + 10, func(r sparseRow) bool { return r.K == x }},
+				probe{"Y.B", "=", x + 10, func(r sparseRow) bool { return r.A == x }},
 			)
 		}
 		for _, x := range append([]string{"zz"}, tinyStrs...) {
